@@ -344,6 +344,11 @@ func runProperty(spec *PropSpec, tier string, seed, workers int) int {
 			// translation validation of passing paths
 			for _, tv := range st.TVTapes {
 				r := runTape(tv.Tape, 60*time.Second)
+				// harnesses whose outcome depends on Go's map iteration order (not controlled by the tape) declare
+				// ReplayAttempts: a passing path is validated if one of that many native runs agrees
+				for a := 1; a < hh.ReplayAttempts && !(r.Outcome == "ok" && equalStrings(r.Obs, tv.Obs)); a++ {
+					r = runTape(tv.Tape, 60*time.Second)
+				}
 				if r.Outcome == "ok" && equalStrings(r.Obs, tv.Obs) {
 					tvOK++
 				} else {
